@@ -69,7 +69,7 @@ Produce TWO independent changes touching different mechanisms, in `{wt}/seedA/` 
 Verify yourself, for each change: (1) with the patch applied the full suite has the same set
 of passing tests as without it (all `stable_pass` tests pass); (2) `demo.py` exits 1 with the
 patch and 0 without. Finish with the worktree's tracked files clean (`git checkout -- .`),
-leaving only the untracked `seedA/`, `seedB/` directories. Do not commit anything.
+leaving only the untracked `seedA/`, `seedB/` directories. Do not commit anything, and never use `git stash` (the stash is shared by all worktrees of the repository): to test without your change use `git diff > f.diff; git apply -R f.diff` and `git apply f.diff`.
 Reply with a 5-line summary per change.
 """
 open(f"{wt}/BRIEF.md", "w").write(brief)
